@@ -29,6 +29,8 @@ import (
 	"github.com/ChainSafe/sygma-relayer/keyshare"
 	"github.com/ChainSafe/sygma-relayer/topology"
 	"github.com/binance-chain/tss-lib/crypto"
+	"github.com/binance-chain/tss-lib/crypto/paillier"
+	"github.com/binance-chain/tss-lib/tss"
 	"github.com/libp2p/go-libp2p/core/peer"
 	ma "github.com/multiformats/go-multiaddr"
 	"github.com/taurusgroup/multi-party-sig/pkg/math/curve"
@@ -89,7 +91,22 @@ func c18Fixture(kind string, i int) (c18Val, error) {
 
 // c18Build: spec `<fixture>.<seed>.<npeers>.<threshold>.<size>`; seed 0 = the fixture unchanged.
 // threshold is written biased by 1000 (wire value 1000 = 0, 999 = -1) so negative thresholds are representable.
+var c18valCache sync.Map // values are never written through after they are built
+
 func c18Build(kind, spec string) (c18Val, error) {
+	if v, ok := c18valCache.Load(kind + "/" + spec); ok {
+		return v.(c18Val), nil
+	}
+	v, err := c18BuildRaw(kind, spec)
+	if err == nil {
+		c18valCache.Store(kind+"/"+spec, v)
+	}
+	return v, err
+}
+
+// size >= 100 asks for a LARGE value: ecdsa: a share for (size-100) parties (2048-bit NTilde/H1/H2/Paillier N per party,
+// ~2.8 kB of JSON each); frost: (size-100)*100 additional verification shares; topology: npeers is simply large.
+func c18BuildRaw(kind, spec string) (c18Val, error) {
 	f := strings.Split(spec, ".")
 	if len(f) != 5 {
 		return c18Val{}, fmt.Errorf("bad spec")
@@ -108,7 +125,18 @@ func c18Build(kind, spec string) (c18Val, error) {
 		}
 		k := v.ecdsa.Key // struct copy; slices are re-sliced, never written through
 		m := sz % 4
-		if m < len(k.Ks) {
+		if sz >= 100 {
+			m = sz - 100
+			k.Ks, k.NTildej, k.H1j, k.H2j, k.BigXj, k.PaillierPKs = nil, nil, nil, nil, nil, nil
+			for j := 0; j < m; j++ {
+				k.Ks = append(k.Ks, new(big.Int).SetBytes(r.bytes(32)))
+				k.NTildej = append(k.NTildej, new(big.Int).SetBytes(r.bytes(256)))
+				k.H1j = append(k.H1j, new(big.Int).SetBytes(r.bytes(256)))
+				k.H2j = append(k.H2j, new(big.Int).SetBytes(r.bytes(256)))
+				k.BigXj = append(k.BigXj, crypto.ScalarBaseMult(tss.S256(), new(big.Int).SetBytes(r.bytes(31))))
+				k.PaillierPKs = append(k.PaillierPKs, &paillier.PublicKey{N: new(big.Int).SetBytes(r.bytes(256))})
+			}
+		} else if m < len(k.Ks) {
 			k.Ks, k.NTildej, k.H1j, k.H2j, k.BigXj, k.PaillierPKs = k.Ks[:m], k.NTildej[:m], k.H1j[:m], k.H2j[:m], k.BigXj[:m], k.PaillierPKs[:m]
 		}
 		k.Xi = new(big.Int).SetBytes(r.bytes(sz))
@@ -123,6 +151,13 @@ func c18Build(kind, spec string) (c18Val, error) {
 		}
 		k := v.frost.Key.Clone()
 		k.ChainKey = r.bytes(sz)
+		if sz >= 100 {
+			for j := 0; j < (sz-100)*100; j++ {
+				e := &curve.Secp256k1Scalar{}
+				_ = e.UnmarshalBinary(r.bytes(32))
+				k.VerificationShares[party.ID(c18Peer(r).String())] = e.ActOnBase().(*curve.Secp256k1Point)
+			}
+		}
 		sc := &curve.Secp256k1Scalar{}
 		_ = sc.UnmarshalBinary(r.bytes(32)) // reduced mod the group order by the library
 		k.PrivateShare = sc
@@ -303,30 +338,108 @@ func c18SetLimit(k uint64) (restore func(), err error) {
 	return func() { _ = syscall.Setrlimit(syscall.RLIMIT_FSIZE, &old) }, nil
 }
 
-// child entry: VERIF_C18_CHILD="<kind> <k> <path> <spec>"; exit 0 = Store returned nil, 3 = Store returned an error
+// child entry: VERIF_C18_CHILD="<kind> <mode none|fail|die> <uid or -> <k> <path> <spec>"
+// exit 0 = Store returned nil, 3 = Store returned an error; killed by SIGXFSZ = died
 func c18Child(arg string) {
 	f := strings.Fields(arg)
-	if len(f) != 4 {
+	if len(f) != 6 {
 		os.Exit(9)
 	}
-	v, err := c18Build(f[0], f[3])
+	v, err := c18Build(f[0], f[5])
 	if err != nil {
 		os.Exit(9)
 	}
 	_ = syscall.Setrlimit(syscall.RLIMIT_CORE, &syscall.Rlimit{Cur: 0, Max: 0})
-	// SIGXFSZ back to SIG_DFL (terminate): struct sigaction{handler, flags, restorer, mask} all zero
-	var sa [4]uintptr
-	if _, _, e := syscall.RawSyscall6(syscall.SYS_RT_SIGACTION, uintptr(syscall.SIGXFSZ), uintptr(unsafe.Pointer(&sa[0])), 0, 8, 0, 0); e != 0 {
-		os.Exit(9)
+	if f[1] == "die" {
+		// SIGXFSZ back to SIG_DFL (terminate): struct sigaction{handler, flags, restorer, mask} all zero
+		var sa [4]uintptr
+		if _, _, e := syscall.RawSyscall6(syscall.SYS_RT_SIGACTION, uintptr(syscall.SIGXFSZ), uintptr(unsafe.Pointer(&sa[0])), 0, 8, 0, 0); e != 0 {
+			os.Exit(9)
+		}
 	}
-	k := u64(f[1])
-	if err := syscall.Setrlimit(syscall.RLIMIT_FSIZE, &syscall.Rlimit{Cur: k, Max: k}); err != nil {
-		os.Exit(9)
+	if f[2] != "-" { // become an unprivileged user for good (this process only)
+		id := int(u64(f[2]))
+		if syscall.Setgroups([]int{}) != nil || syscall.Setgid(id) != nil || syscall.Setuid(id) != nil {
+			os.Exit(8)
+		}
 	}
-	if c18Store(f[2], v) != nil {
+	if f[1] != "none" {
+		k := u64(f[3])
+		if err := syscall.Setrlimit(syscall.RLIMIT_FSIZE, &syscall.Rlimit{Cur: k, Max: k}); err != nil {
+			os.Exit(9)
+		}
+	}
+	if c18Store(f[4], v) != nil {
 		os.Exit(3)
 	}
 	os.Exit(0)
+}
+
+func c18RunChild(kind, mode, uid string, k uint64, path, spec string) string {
+	exe, xerr := os.Executable()
+	if xerr != nil {
+		exe = os.Args[0]
+	}
+	cmd := exec.Command(exe)
+	cmd.Env = append(os.Environ(), fmt.Sprintf("VERIF_C18_CHILD=%s %s %s %d %s %s", kind, mode, uid, k, path, spec))
+	e := cmd.Run()
+	if e == nil {
+		return "ok"
+	}
+	ee, ok := e.(*exec.ExitError)
+	if !ok {
+		return "nochild"
+	}
+	ws := ee.Sys().(syscall.WaitStatus)
+	switch {
+	case ws.Signaled() && ws.Signal() == syscall.SIGXFSZ:
+		return "died"
+	case ws.Exited() && ws.ExitStatus() == 3:
+		return "err"
+	case ws.Exited() && ws.ExitStatus() == 8:
+		return "nosetuid"
+	}
+	return "childfail"
+}
+
+// one store of `spec` at path under the given fault: ok | err | died | <harness problem>
+func c18RunStore(kind, mode string, k uint64, path, spec string, v c18Val) string {
+	switch mode {
+	case "none":
+		if c18Store(path, v) != nil {
+			return "err"
+		}
+		return "ok"
+	case "fail":
+		c18mu.Lock()
+		restore, err := c18SetLimit(k)
+		if err != nil {
+			c18mu.Unlock()
+			return "nolimit"
+		}
+		e := c18Store(path, v)
+		restore()
+		c18mu.Unlock()
+		if e != nil {
+			return "err"
+		}
+		return "ok"
+	case "die":
+		return c18RunChild(kind, "die", "-", k, path, spec)
+	}
+	return "badmode"
+}
+
+func c18Left(dir string) int {
+	left := 0
+	if es, err := os.ReadDir(dir); err == nil {
+		for _, e := range es {
+			if e.Name() != "data.json" {
+				left++
+			}
+		}
+	}
+	return left
 }
 
 func c18Encoding(v c18Val) ([]byte, error) {
@@ -359,8 +472,15 @@ func c18EncodingOf(kind, spec string) ([]byte, error) {
 	return b, err
 }
 
-// store <kind> <mode> <k> <old|-> <new>  =>  n=<oldLen>,<newLen>,<same>;st=<ok|err|died>;file=<new|old|pre<j>|absent|other>;get=<new|old|err|other>;left=<n>
-func c18OpStore(a []string) string {
+// store   <kind> <mode> <k> <old|-> <new>  =>  n=<oldLen>,<newLen>,<same>;st=<ok|err|died>;file=<new|old|pre<j>|absent|other>;get=<new|old|err|other>;left=<n>
+// storero <same args>: the store runs (in a child process) as a user that may write the FILE but may not create files in
+// its DIRECTORY: no temp file can be created there (EACCES)
+func c18OpStore(a []string) string   { return c18StoreOp(a, false) }
+func c18OpStoreRO(a []string) string { return c18StoreOp(a, true) }
+
+const c18Nobody = 65534
+
+func c18StoreOp(a []string, ro bool) string {
 	kind, mode, k, oldS, newS := a[0], a[1], u64(a[2]), a[3], a[4]
 	newV, err := c18Build(kind, newS)
 	if err != nil {
@@ -374,7 +494,7 @@ func c18OpStore(a []string) string {
 	if err != nil {
 		return "notmp"
 	}
-	defer os.RemoveAll(dir)
+	defer func() { _ = os.Chmod(dir, 0o700); os.RemoveAll(dir) }()
 	path := filepath.Join(dir, "data.json")
 	var oldV c18Val
 	var oldB []byte
@@ -389,50 +509,29 @@ func c18OpStore(a []string) string {
 			return "nold"
 		}
 	}
-	st := "ok"
-	switch mode {
-	case "none":
-		if c18Store(path, newV) != nil {
-			st = "err"
-		}
-	case "fail":
-		c18mu.Lock()
-		restore, err := c18SetLimit(k)
-		if err != nil {
-			c18mu.Unlock()
-			return "nolimit"
-		}
-		e := c18Store(path, newV)
-		restore()
-		c18mu.Unlock()
-		if e != nil {
-			st = "err"
-		}
-	case "die":
-		exe, xerr := os.Executable()
-		if xerr != nil {
-			exe = os.Args[0]
-		}
-		cmd := exec.Command(exe)
-		cmd.Env = append(os.Environ(), "VERIF_C18_CHILD="+kind+" "+a[2]+" "+path+" "+newS)
-		e := cmd.Run()
-		if e != nil {
-			ee, ok := e.(*exec.ExitError)
-			if !ok {
-				return "nochild"
+	var st string
+	if !ro {
+		st = c18RunStore(kind, mode, k, path, newS, newV)
+	} else {
+		uid := "-"
+		if os.Geteuid() == 0 {
+			// directory: owned by root, searchable by everyone, writable by root only; the file (if any): owned by nobody
+			if os.Chmod(dir, 0o755) != nil {
+				return "nochmod"
 			}
-			ws := ee.Sys().(syscall.WaitStatus)
-			switch {
-			case ws.Signaled() && ws.Signal() == syscall.SIGXFSZ:
-				st = "died"
-			case ws.Exited() && ws.ExitStatus() == 3:
-				st = "err"
-			default:
-				return "childfail"
+			if oldS != "-" && os.Chown(path, c18Nobody, c18Nobody) != nil {
+				return "nochown"
 			}
+			uid = itoa(c18Nobody)
+		} else if os.Chmod(dir, 0o555) != nil { // not root: take our own write permission on the directory away
+			return "nochmod"
 		}
+		st = c18RunChild(kind, mode, uid, k, path, newS)
+	}
+	switch st {
+	case "ok", "err", "died":
 	default:
-		return "badmode"
+		return st
 	}
 	same := 0
 	if oldS != "-" && bytes.Equal(oldB, newB) {
@@ -462,15 +561,83 @@ func c18OpStore(a []string) string {
 	case oldS != "-" && c18Eq(got, oldV):
 		get = "old"
 	}
-	left := 0
-	if es, err := os.ReadDir(dir); err == nil {
-		for _, e := range es {
-			if e.Name() != "data.json" {
-				left++
+	return fmt.Sprintf("n=%d,%d,%d;st=%s;file=%s;get=%s;left=%d", len(oldB), len(newB), same, st, file, get, c18Left(dir))
+}
+
+// seq <kind> <step;step;…>   step = <mode>:<k>:<value spec>
+// Successive stores into ONE directory that is never cleaned in between (a killed store leaves its temp file behind, as after
+// a crash and restart). After every step the file and the real getter's result are named relative to ALL values of the
+// sequence: v<c> = the complete encoding of the value of class c (c = index of the first step with that encoding).
+//   =>  <c>,<len>,<st>,<file: v<c>|absent|x<len>>,<get: v<c>|err|x>,<left>  per step, joined by `/`
+func c18OpSeq(a []string) string {
+	kind := a[0]
+	dir, err := os.MkdirTemp("", "verif-c18s-")
+	if err != nil {
+		return "notmp"
+	}
+	defer os.RemoveAll(dir)
+	path := filepath.Join(dir, "data.json")
+	type val struct {
+		v c18Val
+		b []byte
+	}
+	vals := []val{}
+	out := []string{}
+	for _, stp := range items(a[1], ";") {
+		f := strings.Split(stp, ":")
+		if len(f) != 3 {
+			return "badstep"
+		}
+		v, err := c18Build(kind, f[2])
+		if err != nil {
+			return "badspec"
+		}
+		b, err := c18EncodingOf(kind, f[2])
+		if err != nil {
+			return "noref"
+		}
+		cls := len(vals)
+		for i, w := range vals {
+			if bytes.Equal(w.b, b) {
+				cls = i
+				break
 			}
 		}
+		vals = append(vals, val{v, b})
+		st := c18RunStore(kind, f[0], u64(f[1]), path, f[2], v)
+		switch st {
+		case "ok", "err", "died":
+		default:
+			return st
+		}
+		file := "absent"
+		fb, rerr := os.ReadFile(path)
+		if rerr == nil {
+			file = "x" + itoa(len(fb))
+			for i, w := range vals {
+				if bytes.Equal(w.b, fb) {
+					file = "v" + itoa(i)
+					break
+				}
+			}
+		} else if !os.IsNotExist(rerr) {
+			file = "unreadable"
+		}
+		get := "x"
+		got, gerr := c18Get(kind, path)
+		if gerr != nil {
+			get = "err"
+		} else {
+			for i, w := range vals {
+				if c18Eq(got, w.v) {
+					get = "v" + itoa(i)
+					break
+				}
+			}
+		}
+		out = append(out, fmt.Sprintf("%d,%d,%s,%s,%s,%d", cls, len(b), st, file, get, c18Left(dir)))
 	}
-	return fmt.Sprintf("n=%d,%d,%d;st=%s;file=%s;get=%s;left=%d", len(oldB), len(newB), same, st, file, get, left)
+	return joinOr(out, "/")
 }
 
 func init() {
@@ -478,6 +645,8 @@ func init() {
 		c18Child(arg) // never returns
 	}
 	ops["C18.store"] = c18OpStore
+	ops["C18.storero"] = c18OpStoreRO
+	ops["C18.seq"] = c18OpSeq
 	gens["C18"] = genC18
 }
 
@@ -556,6 +725,111 @@ func genC18(g *G) {
 		}
 		for _, k := range ks {
 			g.Emit("store", kind, "die", itoa(k), old, nw)
+		}
+	}
+	// 5. LARGE values (the property says: every representable value): ECDSA shares for 20..40 parties, FROST shares with
+	//    hundreds to thousands of verification shares, topologies with hundreds to thousands of peers - encodings that
+	//    cross 64 KiB and (thorough) 1 MiB; round trip, and faults on both sides of the 64 KiB mark
+	large := map[string][]string{
+		"ecdsa": {c18Spec(0, 11, 22, 11, 122), c18Spec(1, 12, 30, 15, 130), c18Spec(2, 13, 40, 20, 140)},
+		"frost": {c18Spec(0, 14, 300, 2, 107), c18Spec(1, 15, 40, 3, 112)},
+		"topo":  {c18Spec(0, 16, 700, 3, 1), c18Spec(0, 17, 1500, 5, 2)},
+	}
+	if g.Thorough() {
+		for m := 20; m <= 40; m++ {
+			large["ecdsa"] = append(large["ecdsa"], c18Spec(m%3, 100+m, m, m/2, 100+m))
+		}
+		large["frost"] = append(large["frost"], c18Spec(2, 21, 2000, 2, 101), c18Spec(0, 22, 10, 2, 130), c18Spec(1, 23, 5000, 9, 220))
+		large["topo"] = append(large["topo"], c18Spec(0, 24, 60, 3, 0), c18Spec(0, 25, 5000, 3, 1), c18Spec(0, 26, 15000, 7, 2))
+	}
+	for _, kind := range kinds {
+		small := c18Spec(1, 0, 0, 0, 0)
+		for i, sp := range large[kind] {
+			g.Emit("store", kind, "none", "0", "-", sp)
+			g.Emit("store", kind, "none", "0", small, sp)
+			n := encLen(kind, sp)
+			if i < g.Count(2, 6) {
+				for _, k := range []int{65535, 65536, 65537, n - 1, g.Intn(n + 1)} {
+					if k >= 0 {
+						g.Emit("store", kind, "fail", itoa(k), small, sp)
+					}
+				}
+				g.Emit("store", kind, "die", itoa(g.Intn(n+1)), small, sp)
+				g.Emit("store", kind, "die", itoa(n-1), sp, small) // a small value over a large one
+			}
+		}
+	}
+	// 6. SEQUENCES in one directory that is never cleaned: killed stores leave their temp files, later stores of shorter and
+	//    longer values follow, the file is read after every step
+	sized := func(kind string, big bool) string { // a value whose encoding is clearly long / clearly short
+		switch kind {
+		case "topo":
+			if big {
+				return c18Spec(0, 1+g.Intn(1<<30), 6+g.Intn(8), 1+g.Intn(4), g.Intn(3))
+			}
+			return c18Spec(0, 1+g.Intn(1<<30), g.Intn(3), 1, 0)
+		case "frost":
+			if big {
+				return c18Spec(g.Intn(3), 1+g.Intn(1<<30), 4+g.Intn(6), 1+g.Intn(3), 40+g.Intn(30))
+			}
+			return c18Spec(g.Intn(3), 1+g.Intn(1<<30), 0, 1, 1)
+		default:
+			if big {
+				return c18Spec(g.Intn(3), 1+g.Intn(1<<30), 3+g.Intn(4), 1+g.Intn(3), 3+4*g.Intn(10)) // all three parties
+			}
+			return c18Spec(g.Intn(3), 1+g.Intn(1<<30), 0, 1, 4*g.Intn(10)) // no per-party data
+		}
+	}
+	for _, kind := range kinds {
+		for i := 0; i < g.Count(14, 300); i++ {
+			// a value, then a LONG one cut after k bytes, then a SHORT (or another long) one, stored normally or cut as well
+			a, b, c := sized(kind, g.Bool()), sized(kind, true), sized(kind, g.Intn(4) == 0)
+			nb, nc := encLen(kind, b), encLen(kind, c)
+			k := g.Intn(nb + 1)
+			if nc < nb && g.Intn(4) > 0 {
+				k = nc + 1 + g.Intn(nb-nc) // the leftover is longer than the value stored next
+			}
+			cut := []string{"die", "die", "fail"}[g.Intn(3)]
+			steps := []string{"none:0:" + a, cut + ":" + itoa(k) + ":" + b}
+			switch g.Intn(4) {
+			case 0:
+				steps = append(steps, "fail:"+itoa(g.Intn(nc+1))+":"+c, "none:0:"+c)
+			case 1:
+				steps = append(steps, "die:"+itoa(g.Intn(nc+1))+":"+c, "none:0:"+sized(kind, false))
+			default:
+				steps = append(steps, "none:0:"+c)
+			}
+			if g.Intn(3) == 0 {
+				steps = steps[1:] // no value before the first (killed) store
+			}
+			g.Emit("seq", kind, joinOr(steps, ";"))
+		}
+		for i := 0; i < g.Count(10, 300); i++ { // random sequences
+			steps := []string{}
+			for j := 0; j < 2+g.Intn(4); j++ {
+				v := sized(kind, g.Bool())
+				if g.Intn(5) == 0 {
+					v = rndSpec()
+				}
+				mode := []string{"none", "none", "fail", "die"}[g.Intn(4)]
+				steps = append(steps, mode+":"+itoa(g.Intn(encLen(kind, v)+2))+":"+v)
+			}
+			g.Emit("seq", kind, joinOr(steps, ";"))
+		}
+	}
+	// 7. the process may write the FILE but may not create files in its DIRECTORY (EACCES from CreateTemp), alone and
+	//    together with a write fault: the store must return an error and leave the previous value
+	for _, kind := range kinds {
+		for i := 0; i < g.Count(10, 150); i++ {
+			nw := rndSpec()
+			old := rndSpec()
+			if i%4 == 3 {
+				old = "-"
+			}
+			n := encLen(kind, nw)
+			mode := []string{"none", "fail", "die", "fail", "die"}[i%5]
+			k := []int{0, 1, n / 2, n - 1, n, g.Intn(n + 1)}[g.Intn(6)]
+			g.Emit("storero", kind, mode, itoa(k), old, nw)
 		}
 	}
 	// 4. random everything: kind, mode, previous value or none, same value stored twice, k around the boundaries
